@@ -220,7 +220,7 @@ func (a *AttributeExpr) Validate(ctx string, parent eval.Expression) *eval.Valid
 		}
 		var pkgPath string
 		if ut, ok := a.Type.(UserType); ok {
-			if meta, ok := ut.Attribute().Meta["struct:pkg:path"]; ok {
+			if meta, ok := ut.Attribute().Meta["struct:pkg:path"]; ok && len(meta) > 0 {
 				pkgPath = meta[0]
 			}
 		}
@@ -300,7 +300,7 @@ func (a *AttributeExpr) Finalize() {
 	var pkgPath string
 	if ut, ok := a.Type.(UserType); ok {
 		ut.Finalize()
-		if meta, ok := ut.Attribute().Meta["struct:pkg:path"]; ok {
+		if meta, ok := ut.Attribute().Meta["struct:pkg:path"]; ok && len(meta) > 0 {
 			pkgPath = meta[0]
 		}
 	}
